@@ -212,7 +212,7 @@ PLAN = {
 NONTRIVIAL = {
     "C01": ["C01.parked_wake", "C01.midpoll_wake_at_pending", "C01.wake_mid_poll", "C01.stale_waker", "quiesce.parked"],
     "C02": ["C02.drop_midflight", "C02.unreturned_values"],
-    "C03": ["C01.wake_finished_child", "C01.stale_waker", "C01.repoll_after_wake", "C03.repoll_after_final"],
+    "C03": ["C01.wake_finished_child", "C01.stale_waker", "C01.repoll_after_wake", "C01.wake_after_final"],
     "C20": ["C20.never", "C20.pending_multi"],
     "C04": ["C04.ret.pending"], "C05": ["C05.ret.pending", "C05.ret.ready.err"], "C06": ["C06.ret.pending"],
     "C07": ["C07.ret.pending", "C07.ret.ready.err"], "C08": ["C08.ret.some", "C08.ret.pending"],
